@@ -6,6 +6,7 @@ import contextlib
 import io
 import json
 import os
+import posixpath
 import random
 import re
 import sys
@@ -32,6 +33,24 @@ def _exc_site(exc):
     frames = [f for f in tb if '/nbdime/' in f.filename.replace(os.sep, '/')]
     last = frames[-1] if frames else tb[-1]
     return '%s@%s:%s' % (type(exc).__name__, os.path.basename(last.filename), last.name)
+
+
+@contextlib.contextmanager
+def _quiet_fd2():
+    """nbdime spawns `git check-attr` etc. inheriting fd 2; keep their complaints (after a mis-set cwd) off the report"""
+    try:
+        sys.stderr.flush()
+    except Exception:
+        pass
+    saved = os.dup(2)
+    null = os.open(os.devnull, os.O_WRONLY)
+    try:
+        os.dup2(null, 2)
+        yield
+    finally:
+        os.dup2(saved, 2)
+        os.close(saved)
+        os.close(null)
 
 
 def _exc_text(exc):
@@ -204,42 +223,46 @@ def _observe(case, cwd_abs, mode):
         if now != before or later != before:
             obs['during'].append(now if now != before else later)
 
-    try:
-        try:
-            if mode == 'exhaust':
+    def drive():
+        if mode == 'exhaust':
+            for pair in gf.changed_notebooks(a, b, paths):
+                body(pair)
+        elif mode == 'break-close':
+            gen = gf.changed_notebooks(a, b, paths)
+            for pair in gen:
+                body(pair)
+                break
+            gen.close()
+        elif mode == 'break-del':
+            gen = gf.changed_notebooks(a, b, paths)
+            for pair in gen:
+                body(pair)
+                break
+            del gen
+            pair = None
+        elif mode == 'raise-in-body':
+            try:
                 for pair in gf.changed_notebooks(a, b, paths):
                     body(pair)
-            elif mode == 'break-close':
-                gen = gf.changed_notebooks(a, b, paths)
+                    raise _Boom()
+            except _Boom:
+                pass
+        elif mode == 'gen-throw':
+            gen = gf.changed_notebooks(a, b, paths)
+            try:
                 for pair in gen:
                     body(pair)
-                    break
-                gen.close()
-            elif mode == 'break-del':
-                gen = gf.changed_notebooks(a, b, paths)
-                for pair in gen:
-                    body(pair)
-                    break
-                del gen
-                pair = None
-            elif mode == 'raise-in-body':
-                try:
-                    for pair in gf.changed_notebooks(a, b, paths):
-                        body(pair)
-                        raise _Boom()
-                except _Boom:
-                    pass
-            elif mode == 'gen-throw':
-                gen = gf.changed_notebooks(a, b, paths)
-                try:
-                    for pair in gen:
-                        body(pair)
-                        gen.throw(_Boom())
-                except _Boom:
-                    pass
-                del gen
-            else:
-                raise common.CheckerDefect('unknown mode %r' % mode)
+                    gen.throw(_Boom())
+            except _Boom:
+                pass
+            del gen
+        else:
+            raise common.CheckerDefect('unknown mode %r' % mode)
+
+    try:
+        try:
+            with _quiet_fd2():
+                drive()
         except common.CheckerDefect:
             raise
         except Exception as exc:       # raised by nbdime / GitPython under nbdime
@@ -370,15 +393,21 @@ def check_case(root, info, contents, case, modes):
                 txt = ('%d of %d notebook entries git reports are not examined, e.g. %s %s -> %s; yielded %d pair(s)'
                        % (len(remaining), len(req), e['status'], e['a_path'], e['b_path'], len(obs['pairs'])))
                 kind = 'missing-entry'
-                if case['paths'] is not None and not filter_blamed:
-                    # is the same call without the filter complete?  then the filter (relative to cwd) is what is mishandled
-                    c2 = dict(case, paths=None, paths_as='none')
-                    o2 = _observe(c2, cwd_abs, 'exhaust')
+                if case['paths'] is not None and filter_blamed:
+                    kind = 'filter-ignored'
+                    txt += ' (entries outside the filter are examined instead)'
+                elif case['paths'] is not None and case['cwd']:
+                    # Is the filter, or the entry, what is mishandled?  Ask again from the repository root with the same
+                    # filter spelled relative to the root: if that is complete, resolving the filter against the cwd fails.
+                    rooted = [posixpath.normpath(case['cwd'] + '/' + p) for p in case['paths']]
+                    c2 = dict(case, cwd='', paths=rooted, paths_as='list')
+                    o2 = _observe(c2, root, 'exhaust')
                     if o2['exc'] is None:
                         got = [(da[0], db[0]) for da, db in o2['pairs']]
                         if all((e['a'], e['b']) in got for e in remaining):
                             kind = 'filter-ignored'
-                            txt += ' (without the filter, from the same directory, they are examined: the filter relative to the cwd is not respected)'
+                            txt += (' (the same filter spelled relative to the repository root, %r from <repo>/, is handled: the filter is not '
+                                    'resolved against the directory nbdime is run from)' % (rooted,))
                 fail(kind, txt)
     # ---- abandoning the generator early
     for mode in modes:
@@ -422,7 +451,7 @@ def check_cli(root, info, contents, cli):
     status = None
     try:
         try:
-            with contextlib.redirect_stdout(buf), contextlib.redirect_stderr(io.StringIO()):
+            with _quiet_fd2(), contextlib.redirect_stdout(buf), contextlib.redirect_stderr(io.StringIO()):
                 status = app.main(argv)
         except common.CheckerDefect:
             raise
